@@ -93,6 +93,56 @@ def run_for_property(prop, limit=None):
     return res
 
 
+def run_seeded_for_property(prop):
+    """Apply the seeded changes written against `prop` (/verif/seeded/*/meta.json) to scratch copies and
+    run the property's quick check: each must be reported.  -> dict(caught=[..], missed=[..], skipped=[..])"""
+    res = {"caught": [], "missed": [], "skipped": []}
+    base = os.path.join(VERIF, "seeded")
+    for name in sorted(os.listdir(base)) if os.path.isdir(base) else []:
+        mp = os.path.join(base, name, "meta.json")
+        patch = os.path.join(base, name, "patch.diff")
+        if not (os.path.exists(mp) and os.path.exists(patch)):
+            continue
+        if json.load(open(mp)).get("property") != prop:
+            continue
+        d = make_scratch()
+        try:
+            r = subprocess.run(["patch", "-p1", "-s", "-i", patch], cwd=d, stdout=subprocess.PIPE, stderr=subprocess.STDOUT, text=True)
+            if r.returncode != 0:
+                res["skipped"].append(name)
+                continue
+            rc, out = run_check(d, prop)
+            res["caught" if rc == 1 and "VIOLATION" in out else "missed"].append(name)
+        finally:
+            shutil.rmtree(d, ignore_errors=True)
+    return res
+
+
+def run_benign_sample(prop, per_prop=6):
+    """A deterministic sample of the behaviour-preserving refactorings (/verif/benign/*.diff): the property's
+    quick check must stay silent on each.  -> dict(silent=[..], false_alarm=[..], skipped=[..])"""
+    res = {"silent": [], "false_alarm": [], "skipped": []}
+    base = os.path.join(VERIF, "benign")
+    files = sorted(f for f in os.listdir(base) if f.endswith(".diff")) if os.path.isdir(base) else []
+    if not files:
+        return res
+    off = int(prop[1:]) if prop[1:].isdigit() else 0
+    step = max(1, len(files) // per_prop)
+    pick = [files[(off + i * step) % len(files)] for i in range(per_prop)]
+    for f in sorted(set(pick)):
+        d = make_scratch()
+        try:
+            r = subprocess.run(["patch", "-p1", "-s", "-i", os.path.join(base, f)], cwd=d, stdout=subprocess.PIPE, stderr=subprocess.STDOUT, text=True)
+            if r.returncode != 0:
+                res["skipped"].append(f[:-5])
+                continue
+            rc, out = run_check(d, prop)
+            res["silent" if rc == 0 else "false_alarm"].append(f[:-5])
+        finally:
+            shutil.rmtree(d, ignore_errors=True)
+    return res
+
+
 def main():
     filters = [a for a in sys.argv[1:] if not a.startswith("-")]
     verbose = "-v" in sys.argv
